@@ -890,6 +890,20 @@ class ExecExpr(ExecCore):
     def get_item(self, st, base, key, node):
         base = dict_view(base)
         ty = base.ty
+        if isinstance(ty, Ty.TAny):
+            # unknown static type: a string key means a mapping, an integer key a list -- as an obligation
+            a = va(base.term)
+            kt = Ty.strip_opt(key.ty)
+            if isinstance(kt, Ty.TStr):
+                want, nty = K_DICT, Ty.TDict(Ty.ANY, Ty.ANY)
+            elif isinstance(kt, (Ty.TInt, Ty.TBool)):
+                want, nty = K_LIST, Ty.TList(Ty.ANY)
+            else:
+                raise Unsupported('subscript on Any with a key of static type %r (line %d)' % (key.ty, node.lineno))
+            self.oblige(st, And(is_ref(base.term), KIND(a) == want), 'subscripted-value-kind@L%d' % node.lineno, 'pre-of-callee')
+            st.assume(And(is_ref(base.term), KIND(a) == want, st.DSZ[a] >= 0))
+            base = SV(base.term, nty)
+            ty = nty
         if isinstance(ty, Ty.TOpt):
             nn, isn = self.fork(st, Not(is_none(base.term)), None)
             out, raises = [], []
